@@ -196,10 +196,32 @@ def payloads(res, prog):
                 v = (t.get('targs') or ['?'])[-1]
                 src = show(f.expand(f.operand_tree(t['args'][0])))
                 if v == 'usize':
-                    if 'enumerate' not in src:
-                        res.violation('C08.4', 'C08.4|%s' % f.qual, f, t.get('line'), 'usize payload is not an enumerate() index: %s' % src[:120])
+                    # the index stored in the map must be the position in the very Vec the lookups index: enumerate()
+                    # directly over iter(<that Vec>) - an adapter in between (filter, skip, rev ..) shifts positions - and
+                    # the closure pairs the item's own range with the index it was enumerated under
+                    e = f.expand(f.operand_tree(t['args'][0]))
+                    okc = (is_call(e, 'Iterator::map') and is_call(e[2], 'Iterator::enumerate') and is_call(e[2][2], 'slice::iter')
+                           and e[3][0] == 'closure')
+                    vec = show(e[2][2][2]) if okc else ''
+                    if okc:
+                        g = prog.crate(cn).fn(e[3][1])
+                        rets = [g.expand(tt) for (_, _, tt) in ret_assigns(g)] if g is not None else []
+                        okc = len(rets) == 1 and rets[0][0] == 'tuple' and len(rets[0]) == 3 and is_call(rets[0][1], 'memory_range') and show(rets[0][1][2]) in ('_2.1', '(* _2.1)') and show(rets[0][2]) == '_2.0'
+                    # ... and that Vec is what ends up in the list next to the map
+                    stored = False
+                    for bb in sorted(f.reach):
+                        for s_ in f.blocks[bb]['s']:
+                            if s_['k'] == 'assign' and s_['rv']['k'] == 'agg' and s_['rv'].get('ak') == 'adt':
+                                ops = [show(f.expand(f.operand_tree(x))) for x in s_['rv']['xs']]
+                                inner = re.sub(r'^\(<std::vec::Vec<T, A> as std::ops::Deref>::deref (.*)\)$', r'\1', vec)
+                                if inner in ops:
+                                    stored = True
+                    if not okc:
+                        res.violation('C08.4', 'C08.4|%s' % f.qual, f, t.get('line'), 'the index payload is not map(enumerate(iter(<vec>)), |(i, x)| (x.memory_range(), i)): %s' % src[:200])
+                    elif not stored:
+                        res.violation('C08.4', 'C08.4|%s|stored' % f.qual, f, t.get('line'), 'the Vec that was enumerated (%s) is not the one stored in the list the indices are used on' % vec[:80])
                     else:
-                        res.sample({'rule': 'C08.4', 'fn': f.qual, 'payload': 'enumerate index'})
+                        res.sample({'rule': 'C08.4', 'fn': f.qual, 'payload': 'enumerate index over ' + vec[-40:]})
                 elif ok_records.search(v):
                     res.sample({'rule': 'C08.4', 'fn': f.qual, 'payload': v})
                 else:
